@@ -313,13 +313,25 @@ def run_numbers(name, m, sv, limit=120):
                 return out
         # runs that include the check character itself (numbers ending in 000, check digit 0): keep the run and
         # repair at any single other position instead
+        def ok(u):
+            """u itself, or u followed by an all-zero suffix, is accepted: returns the accepted text or None."""
+            if e2._accepts(m, u, {}):
+                return u
+            for suf in ('000', '00', '0000'):
+                try:
+                    if m.is_valid(u + suf):
+                        return u + suf
+                except Exception:
+                    pass
+            return None
         for k in (2, 3, 4):
             for ch in '09':
                 if n > k + 1 and all(c in D for c in v[n - k:]):
                     t = v[:n - k] + ch * k
-                    if e2._accepts(m, t, {}):
-                        if t not in out:
-                            out.append(t)
+                    a = ok(t)
+                    if a:
+                        if a not in out:
+                            out.append(a)
                         continue
                     found = False
                     for i in range(n - k):
@@ -327,9 +339,10 @@ def run_numbers(name, m, sv, limit=120):
                             continue
                         for c in D:
                             u = t[:i] + c + t[i + 1:]
-                            if u != t and e2._accepts(m, u, {}):
-                                if u not in out:
-                                    out.append(u)
+                            a = ok(u) if u != t else None
+                            if a:
+                                if a not in out:
+                                    out.append(a)
                                 found = True
                                 break
                         if found:
